@@ -90,5 +90,60 @@ theorem held_addBridgeFee (k : Kind) (g c u n : Nat) (hc : c < 3) :
   have : c = 0 ∨ c = 1 ∨ c = 2 := by omega
   rcases this with rfl | rfl | rfl <;> cases k <;> simp only [addBridgeFee] <;> held_done
 
+/-- 1 if the asset is a representation of group `g'` -/
+def inG (a : Asset) : Int := if a ∈ assets g' then 1 else 0
+
+theorem d_send_uE (a : Asset) (u n : Nat) :
+    (heldObs g').flowDelta [.send a (U u) E n] = -((n : Int) * inG g' a) := by
+  cases a <;> simp only [inG] <;> held_done
+
+theorem d_send_Eu (a : Asset) (u n : Nat) :
+    (heldObs g').flowDelta [.send a E (U u) n] = (n : Int) * inG g' a := by
+  cases a <;> simp only [inG] <;> held_done
+
+theorem d_mintE (a : Asset) (n : Nat) : (heldObs g').flowDelta [.mint a E E n] = 0 := by
+  cases a <;> held_done
+
+theorem d_burnE (a : Asset) (n : Nat) : (heldObs g').flowDelta [.burn a E E n] = 0 := by
+  cases a <;> held_done
+
+theorem inG_den (g : Nat) (d : Den) (h : ∀ c, d = .chain c → c < 3) :
+    inG g' (d.asset g) = if g = g' then 1 else 0 := by
+  cases d with
+  | base => simp [inG, Den.asset, assets]
+  | chain c =>
+    have := h c rfl
+    have : c = 0 ∨ c = 1 ∨ c = 2 := by omega
+    rcases this with rfl | rfl | rfl <;> simp [inG, Den.asset, assets]
+
+theorem held_convertDenom (k : Kind) (g u n : Nat) (src dst : Den)
+    (hs : ∀ c, src = .chain c → c < 3) (hd : ∀ c, dst = .chain c → c < 3) :
+    (heldObs g').flowDelta (convertDenom k g (U u) n src dst) = 0 := by
+  have hmid : ∀ mid : List Prim, (mid = [] ∨ (∃ a, mid = [.mint a E E n]) ∨ (∃ a, mid = [.burn a E E n])) →
+      (heldObs g').flowDelta mid = 0 := by
+    intro mid h
+    rcases h with rfl | ⟨a, rfl⟩ | ⟨a, rfl⟩
+    · rfl
+    · exact d_mintE g' a n
+    · exact d_burnE g' a n
+  simp only [convertDenom, flowDelta_append, d_send_uE, d_send_Eu, inG_den g' g src hs, inG_den g' g dst hd]
+  rw [hmid]
+  · omega
+  · cases k <;> cases src <;> cases dst <;> simp
+
+theorem held_sendPair (a : Asset) (u r n : Nat) :
+    (heldObs g').flowDelta [.send a (U u) E n, .send a E (U r) n] = 0 := by
+  cases a <;> held_done
+
+theorem held_refundCoin (k : Kind) (g c r n : Nat) (hc : c < 3) :
+    (heldObs g').flowDelta (bridgeCallRefundCoin k g c (U r) n) = if g = g' then (n : Int) else 0 := by
+  have : c = 0 ∨ c = 1 ∨ c = 2 := by omega
+  rcases this with rfl | rfl | rfl <;> cases k <;>
+    simp only [bridgeCallRefundCoin, convertDenom, List.cons_append, List.nil_append] <;> held_done
+
+theorem held_refundToEvm (k : Kind) (g r n : Nat) :
+    (heldObs g').flowDelta (bridgeCallRefundToEvm k g (U r) n) = 0 := by
+  cases k <;> simp only [bridgeCallRefundToEvm, convertCoin] <;> held_done
+
 end closed
 end FxVerif.Proofs.C04
